@@ -34,7 +34,13 @@ func genBarrier(seed uint64, tier string) *Plan {
 			x := r.Intn(10)
 			switch {
 			case x < flushW:
-				tp.Ops = append(tp.Ops, Op{K: "flush"})
+				if r.Bool(0.25) {
+					// a flush without an object (nitro's collection worker flushes nil for an
+					// empty garbage list): the session still orders later destructions
+					tp.Ops = append(tp.Ops, Op{K: "flushnil"})
+				} else {
+					tp.Ops = append(tp.Ops, Op{K: "flush"})
+				}
 			case held > 0 && x < flushW+3:
 				tp.Ops = append(tp.Ops, Op{K: "rel", A: []int{r.Intn(held)}})
 				held--
@@ -69,6 +75,7 @@ type barFlush struct {
 	destr    []int64
 	ref      *int
 	lockRank int
+	nilRef   bool
 }
 
 func runBarrier(env *Env) {
@@ -77,6 +84,7 @@ func runBarrier(env *Env) {
 	var flushes []*barFlush
 	var toks []*barTok
 	destrOrder := []int{}
+	nilDestr := 0
 	cfg := skiplist.Config{
 		ItemSize:      func(unsafe.Pointer) int { return 0 },
 		UseMemoryMgmt: true,
@@ -85,7 +93,9 @@ func runBarrier(env *Env) {
 		BarrierDestructor: func(ref unsafe.Pointer) {
 			s.Yield(SiteHarnessCallback)
 			if ref == nil {
-				env.Violate("C16", "destructor-nil-ref", "destructor called with nil ref")
+				// the session of an object-less flush
+				nilDestr++
+				env.Logf("destr nil @%d", s.Seq())
 				return
 			}
 			id := *(*int)(ref)
@@ -134,6 +144,15 @@ func runBarrier(env *Env) {
 					tk.relCall = s.Stamp()
 					env.Logf("%s rel t%d @%d", tp.Name, tk.id, tk.relCall)
 					ab.Release(tk.bs)
+				case "flushnil":
+					f := &barFlush{id: len(flushes), task: ti, nilRef: true}
+					flushes = append(flushes, f)
+					curFlush[s.Cur()] = f
+					f.call = s.Stamp()
+					env.Logf("%s flush(nil) f%d @%d", tp.Name, f.id, f.call)
+					ab.FlushSession(nil)
+					f.ret = s.Stamp()
+					delete(curFlush, s.Cur())
 				case "flush":
 					f := &barFlush{id: len(flushes), task: ti}
 					f.ref = new(int)
@@ -198,6 +217,9 @@ func runBarrier(env *Env) {
 	for _, id := range destrOrder {
 		f := flushes[id]
 		for _, g := range flushes {
+			if g.nilRef {
+				continue
+			}
 			if g.lockRank != 0 && g.lockRank < f.lockRank && !seen[g.id] {
 				env.Violate("C16", "destructor-skipped-earlier-flush", "destructor for f%d (rank %d) ran before the destructor of earlier flush f%d (rank %d)", id, f.lockRank, g.id, g.lockRank)
 			}
@@ -207,11 +229,18 @@ func runBarrier(env *Env) {
 
 	if quiescent {
 		// C17: nothing pending at quiescence.
-		nd := 0
+		nd := nilDestr
+		nnil := 0
 		for _, f := range flushes {
 			if len(f.destr) > 0 {
 				nd++
 			}
+			if f.nilRef {
+				nnil++
+			}
+		}
+		if nilDestr > nnil {
+			env.Violate("C16", "destructor-twice", "%d object-less flushes, the destructor ran %d times without an object", nnil, nilDestr)
 		}
 		alloc, freed, queued := ab.VerifPending()
 		if nd != len(flushes) || queued != 0 || alloc-freed != 1 {
